@@ -1849,4 +1849,205 @@ theorem undoFold_LedSum (e : Env) (ev : List Nat) (s : St) (C P : List Nat) (h :
     rw [hfil] at this
     exact this
 
+/-- **`play` keeps the ledger invariant**; when the block is accepted its transactions join the confirmed log.
+Hypotheses: block ids pairwise distinct, `e.tx i` has id `i`, none already confirmed; a coinbase of the block has no inputs
+and no fee; the block is valid on the chain alone (`hparents`, `hord`, `hdeps`, see `blockRun_LedSum` / `play_PoolLive`).
+No freshness hypothesis. -/
+theorem play_Ledger (e : Env) (s : St) (lh : Int) (b : Block) (C : List Nat) (h : Ledger e s C)
+    (hnd : b.txs.Nodup) (hid : ∀ i ∈ b.txs, (e.tx i).id = i) (hnewC : ∀ i ∈ b.txs, i ∉ C)
+    (haward : ∀ i ∈ b.txs, i ∉ s.pool → (e.tx i).coinbase = true → (e.tx i).ins = [] ∧ feeOf (e.tx i).outs = 0)
+    (hparents : ∀ i ∈ b.txs, ∀ r ∈ (e.tx i).ins, r.tx ∈ s.pool → r.tx ∈ b.txs)
+    (hord : b.txs.Pairwise (fun a b => ∀ r ∈ (e.tx a).ins, r.tx ≠ b))
+    (hdeps : ∀ c ∈ b.txs, c ∈ s.pool → ∀ p ∈ s.pool, dependsOn e s.pool c p = true → p ∈ b.txs) :
+    Ledger e (play e s lh b).1 (if (play e s lh b).2 = .ok then C ++ b.txs else C) := by
+  by_cases hok : (play e s lh b).2 = .ok
+  · rw [if_pos hok]
+    obtain ⟨s2, happ, hshape⟩ := play_ok e s lh b hok
+    rw [hshape]
+    have hl := h.led
+    obtain ⟨_, hndP, _⟩ := List.nodup_append.mp hl.nodupA
+    obtain ⟨_, hoP, _⟩ := List.pairwise_append.mp hl.order
+    have hevP : ∀ x ∈ playEvict e s b, x ∈ s.pool ∧ x ∉ b.txs := by
+      apply closure_induct e s.pool (fun x => x ∈ s.pool ∧ x ∉ b.txs)
+      · intro x hx
+        have h1 := (List.mem_filter.mp hx).1
+        have h2 := List.mem_filter.mp h1
+        exact ⟨h2.1, by simpa using h2.2⟩
+      · intro c hc p hp hd
+        exact ⟨hc, fun hct => hp.2 (hdeps c hct hc p (dependsOn_parent_mem e s.pool c p hd) hd)⟩
+    have hevC : ∀ p ∈ playEvict e s b, ∀ c ∈ s.pool, dependsOn e s.pool c p = true → c ∈ playEvict e s b :=
+      closure_closed e s.pool s.pool.length _ (List.length_filter_le _ _)
+    have hndr : s.pool.reverse.Nodup := by
+      unfold List.Nodup
+      rw [List.pairwise_reverse]
+      exact List.Pairwise.imp (fun h => fun e2 => h e2.symm) hndP
+    have hevmem : ∀ x, x ∈ s.pool.reverse.filter (fun i => (playEvict e s b).contains i) ↔
+        x ∈ s.pool ∧ x ∈ playEvict e s b := by
+      intro x; simp only [List.mem_filter, List.mem_reverse, List.contains_eq_mem, decide_eq_true_eq]
+    have hL1 := undoFold_LedSum e (s.pool.reverse.filter (fun i => (playEvict e s b).contains i)) s C s.pool h
+      (List.Nodup.sublist List.filter_sublist hndr)
+      (fun t ht => ((hevmem t).mp ht).1)
+      (List.Pairwise.filter _ (by rw [List.pairwise_reverse]; exact hoP))
+      (fun t ht j hj hc => by
+        obtain ⟨r, hr, hrt⟩ := hc
+        obtain ⟨htp, hte⟩ := (hevmem t).mp ht
+        refine (hevmem j).mpr ⟨hj, hevC t hte j hj ?_⟩
+        have hjt : j ≠ t := fun e2 => hl.noSelf j (List.mem_append_right _ hj) r hr (hrt.trans e2.symm)
+        unfold dependsOn
+        simp only [Bool.and_eq_true, Bool.or_eq_true, List.any_eq_true, bne_iff_ne, ne_eq,
+          List.contains_eq_mem, decide_eq_true_eq, beq_iff_eq]
+        exact ⟨⟨hjt, htp⟩, Or.inl (Or.inl ⟨r, hr, hrt⟩)⟩)
+    have hL1mem : ∀ x, x ∈ s.pool.filter
+        (fun x => !(s.pool.reverse.filter (fun i => (playEvict e s b).contains i)).contains x) ↔
+        x ∈ s.pool ∧ x ∉ playEvict e s b := by
+      intro x
+      simp only [List.mem_filter, List.contains_eq_mem, List.mem_reverse, decide_eq_true_eq,
+        Bool.not_eq_eq_eq_not, Bool.not_true, decide_eq_false_iff_not, not_and]
+      constructor
+      · intro ⟨h1, h2⟩; exact ⟨h1, h2 h1⟩
+      · intro ⟨h1, h2⟩; exact ⟨h1, fun _ => h2⟩
+    have hrun := applyBlockTxs_run e lh b.prop _ b.txs _ s2 happ
+    have hfin := blockRun_LedSum e lh b.prop _ b.txs (playUndone e s b) s2 C _ hrun hL1 hnd hid
+      (fun i hi => by
+        rw [hL1mem]
+        simp only [List.contains_eq_mem, List.mem_filter, decide_eq_true_eq]
+        constructor
+        · intro ⟨hp, _⟩; exact ⟨hp, fun he => (hevP i he).2 hi⟩
+        · intro ⟨hp, _⟩; exact ⟨hp, hi⟩)
+      hnewC
+      (fun i hi hp => by
+        have hnp : i ∉ s.pool := by
+          intro hip
+          simp only [List.contains_eq_mem, List.mem_filter, decide_eq_true_eq, hip, hi, and_self,
+            decide_true, Bool.true_eq_false] at hp
+        exact haward i hi hnp)
+      (fun i hi r hr hrL => hparents i hi r hr ((hL1mem r.tx).mp hrL).1)
+      hord
+    have hpool : s.pool.filter (fun i => !b.txs.contains i && !(playEvict e s b).contains i) =
+        (s.pool.filter (fun x => !(s.pool.reverse.filter (fun i => (playEvict e s b).contains i)).contains x)).filter
+          (fun x => !b.txs.contains x) := by
+      rw [List.filter_filter]
+      apply List.filter_congr
+      intro x hx
+      have : (s.pool.reverse.filter (fun i => (playEvict e s b).contains i)).contains x =
+          (playEvict e s b).contains x := by
+        by_cases hxe : x ∈ playEvict e s b
+        · simp [hxe, hx]
+        · simp [hxe]
+      rw [this]
+    unfold Ledger
+    simp only
+    rw [hpool]
+    exact LedSum.congr hfin rfl rfl
+  · rw [if_neg hok, XV.C05.play_fail_noop e s lh b hok]; exact h
+
+/-- **`playForMiner` keeps the ledger invariant** (the miner's own block: the award plus pending transactions) -/
+theorem playForMiner_Ledger (e : Env) (s : St) (lh : Int) (b : Block) (C : List Nat) (h : Ledger e s C)
+    (hnd : b.txs.Nodup) (hid : ∀ i ∈ b.txs, (e.tx i).id = i) (hnewC : ∀ i ∈ b.txs, i ∉ C)
+    (hsub : ∀ i ∈ b.txs, (e.tx i).coinbase = false → i ∈ s.pool)
+    (haward : ∀ i ∈ b.txs, (e.tx i).coinbase = true → (e.tx i).ins = [] ∧ feeOf (e.tx i).outs = 0)
+    (hparents : ∀ i ∈ b.txs, ∀ r ∈ (e.tx i).ins, r.tx ∈ s.pool → r.tx ∈ b.txs)
+    (hord : b.txs.Pairwise (fun a b => ∀ r ∈ (e.tx a).ins, r.tx ≠ b)) :
+    Ledger e (playForMiner e s lh b).1 (if (playForMiner e s lh b).2 = .ok then C ++ b.txs else C) := by
+  unfold playForMiner
+  by_cases h1 : b.pre ≠ some s.pointer
+  · rw [if_pos h1]; simp only [reduceCtorEq, ↓reduceIte]; exact h
+  · rw [if_neg h1]
+    cases hgo : playForMiner.go e lh b b.txs s with
+    | none => simp only [reduceCtorEq, ↓reduceIte]; exact h
+    | some s2 =>
+      simp only [↓reduceIte]
+      have hrun := playForMiner_go_run e lh b b.txs s s2 hgo
+      have := blockRun_LedSum e lh b.prop _ b.txs s s2 C s.pool hrun h hnd hid
+        (fun i hi => by
+          constructor
+          · intro hp; exact hsub i hi (by simpa using hp)
+          · intro hp; simp [h.poolNonCoinbase i hp])
+        hnewC
+        (fun i hi _ hc => haward i hi hc)
+        hparents hord
+      exact LedSum.congr this rfl rfl
+
+theorem undoFold_pool (e : Env) (rtxs : List Nat) (s : St) :
+    (rtxs.foldl (fun st i => let t := e.tx i; undoPayFee t t.outs 0 (undoTx e st t)) s).pool = s.pool := by
+  induction rtxs generalizing s with
+  | nil => rfl
+  | cons t rest ih =>
+    simp only [List.foldl_cons]
+    rw [ih]
+    exact (undoPayFee_frame _ _ _ _).2.2.2.2.2.trans (undoTx_frame e s (e.tx t)).2.2
+
+/-- undoing the confirmed transactions `rtxs` (newest first) that end the confirmed log, with an empty pool -/
+theorem undoConfFold_LedSum (e : Env) (rtxs : List Nat) (s : St) (C0 : List Nat)
+    (h : LedSum e s (C0 ++ rtxs.reverse) []) :
+    LedSum e (rtxs.foldl (fun st i => let t := e.tx i; undoPayFee t t.outs 0 (undoTx e st t)) s) C0 [] := by
+  induction rtxs generalizing s with
+  | nil => simpa using h
+  | cons t rest ih =>
+    simp only [List.foldl_cons]
+    apply ih
+    have hC : C0 ++ (t :: rest).reverse = (C0 ++ rest.reverse) ++ [t] := by
+      rw [List.reverse_cons, List.append_assoc]
+    rw [hC] at h
+    have hl := h.led
+    have hnd : ((C0 ++ rest.reverse) ++ [t]).Nodup := by simpa using hl.nodupA
+    have hord : ((C0 ++ rest.reverse) ++ [t]).Pairwise (fun a b => ∀ r ∈ (e.tx a).ins, r.tx ≠ b) := by
+      simpa using hl.order
+    have htX : t ∉ C0 ++ rest.reverse := fun hm => (List.nodup_append.mp hnd).2.2 t hm t (by simp) rfl
+    have hnc : ∀ j ∈ ((C0 ++ rest.reverse) ++ [t]) ++ [], ∀ r ∈ (e.tx j).ins, r.tx ≠ t := by
+      intro j hj r hr
+      rw [List.append_nil] at hj
+      rcases List.mem_append.mp hj with hj' | hj'
+      · exact (List.pairwise_append.mp hord).2.2 j hj' t (by simp) r hr
+      · simp only [List.mem_cons, List.not_mem_nil, or_false] at hj'
+        rw [hj'] at hr
+        exact hl.noSelf t (by simp) r hr
+    have := LedSum_undoConfirmed e s ((C0 ++ rest.reverse) ++ [t]) [] t h (by simp) hnc
+    rw [filter_ne_append_self _ t htX] at this
+    exact this
+
+/-- **undoing the tip block keeps the ledger invariant** (empty pool: `walk` rolls the pool back first): the block's
+transactions leave the confirmed log -/
+theorem undoBlock_Ledger (e : Env) (s : St) (b : Block) (prune : Bool) (C0 : List Nat)
+    (h : Ledger e s (C0 ++ b.txs)) (hp : s.pool = []) :
+    Ledger e (undoBlock e s b prune) C0 ∧ (undoBlock e s b prune).pool = [] := by
+  unfold Ledger at h
+  rw [hp] at h
+  have hrev : C0 ++ b.txs = C0 ++ b.txs.reverse.reverse := by rw [List.reverse_reverse]
+  rw [hrev] at h
+  have hfold := undoConfFold_LedSum e b.txs.reverse s C0 h
+  have hpool := undoFold_pool e b.txs.reverse s
+  unfold undoBlock Ledger
+  simp only
+  rw [hpool, hp]
+  exact ⟨LedSum.congr hfold rfl rfl, rfl⟩
+
+/-- **applying a block during a walk keeps the ledger invariant** (empty pool) -/
+theorem todoBlock_Ledger (e : Env) (s s' : St) (lh : Int) (b : Block) (C : List Nat)
+    (hs : todoBlock e s lh b = some s') (h : Ledger e s C) (hp : s.pool = [])
+    (hnd : b.txs.Nodup) (hid : ∀ i ∈ b.txs, (e.tx i).id = i) (hnewC : ∀ i ∈ b.txs, i ∉ C)
+    (haward : ∀ i ∈ b.txs, (e.tx i).coinbase = true → (e.tx i).ins = [] ∧ feeOf (e.tx i).outs = 0)
+    (hord : b.txs.Pairwise (fun a b => ∀ r ∈ (e.tx a).ins, r.tx ≠ b)) :
+    Ledger e s' (C ++ b.txs) ∧ s'.pool = [] := by
+  unfold todoBlock at hs
+  split at hs
+  · cases hs
+  · split at hs
+    · rename_i s2 happ
+      simp only [Option.some.injEq] at hs
+      subst hs
+      have hrun := applyBlockTxs_run e lh b.prop [] b.txs s s2 happ
+      obtain ⟨fpool, _, _⟩ := blockRun_frame _ _ _ _ _ _ _ hrun
+      unfold Ledger at h
+      rw [hp] at h
+      have := blockRun_LedSum e lh b.prop _ b.txs s s2 C [] hrun h hnd hid
+        (fun i _ => by simp) hnewC (fun i hi _ hc => haward i hi hc)
+        (fun i _ r _ hr => by cases hr) hord
+      have hp2 : s2.pool = [] := by rw [fpool, hp]
+      unfold Ledger
+      simp only [hp2]
+      simp only [List.filter_nil] at this
+      exact ⟨LedSum.congr this rfl rfl, trivial⟩
+    · cases hs
+
 end XV.C02
